@@ -58,7 +58,7 @@ impl TypeLengthField {
 impl<'i> SmlParse<'i> for TypeLengthField {
     fn parse(input: &[u8]) -> ResTy<Self> {
         let (mut input, (mut has_more_bytes, ty, mut len)) = tlf_first_byte(input)?;
-        let mut tlf_len = 1;
+        let mut tlf_len: usize = 1;
 
         // reserved for future usages
         if matches!(ty, Ty::Boolean) && has_more_bytes {
@@ -84,7 +84,11 @@ impl<'i> SmlParse<'i> for TypeLengthField {
         // For some reason, the length of the tlf is part of `len` for primitive types.
         // Therefore, it has to be subtracted here
         if !matches!(ty, Ty::ListOf) {
-            len = match len.checked_sub(tlf_len) {
+            // a field that is too long to be counted in 32 bits is longer than any length it can encode
+            len = match u32::try_from(tlf_len)
+                .ok()
+                .and_then(|tlf_len| len.checked_sub(tlf_len))
+            {
                 Some(l) => l,
                 None => {
                     return Err(TlfParseError::TlfLengthUnderflow.into());
